@@ -262,9 +262,10 @@ Proof. induction sh; intros; cbn [map]; auto. rewrite IHsh. f_equal. lia. Qed.
     ("un reshape works equivalently to fork shape deshape", defs.rs:1562) *)
 Theorem reshape_deshape : forall a, wf a -> Forall (fun n => Z.of_nat n <= amt_limit)%Z (ash a) ->
   (zprod (map Z.of_nat (ash a)) * Z.max 1 (Z.of_nat (length (adata a))) <= size_limit)%Z ->
+  (length (ash a) <= 8)%nat ->
   p_reshape None false (map (fun n => AInt (Z.of_nat n)) (ash a)) (p_deshape a) = Ok a.
 Proof.
-  intros [t sh d] Hw Hl Hz; unfold wf in Hw; cbn [aty ash adata] in *. unfold p_reshape; cbn [aty ash adata p_deshape].
+  intros [t sh d] Hw Hl Hz Hr; unfold wf in Hw; cbn [aty ash adata] in *. unfold p_reshape; cbn [aty ash adata p_deshape].
   assert (E1 : existsb (fun m => match m with AFrac | ANaN => true | _ => false end) (map (fun n => AInt (Z.of_nat n)) sh) = false).
   { clear. induction sh; cbn; auto. }
   assert (E2 : existsb (fun m => match m with AInt z => (amt_limit <? Z.abs z)%Z | _ => false end) (map (fun n => AInt (Z.of_nat n)) sh) = false).
@@ -273,7 +274,9 @@ Proof.
   { clear. induction sh; cbn [map]; auto. rewrite IHsh. f_equal. lia. }
   assert (E3 : filter (fun m => match m with AInf _ => true | _ => false end) (map (fun n => AInt (Z.of_nat n)) sh) = []).
   { clear. induction sh; cbn; auto. }
-  rewrite E1, E2, E4. unfold zlen.
+  assert (E5 : (8 <? zlen (map (fun n => AInt (Z.of_nat n)) sh))%Z = false).
+  { unfold zlen. rewrite map_length. destruct (Z.ltb_spec 8 (Z.of_nat (length sh))); auto; lia. }
+  rewrite E1, E2, E5, E4. unfold zlen.
   destruct (Z.ltb_spec size_limit (zprod (map Z.of_nat sh) * Z.max 1 (Z.of_nat (length d)))); [lia|].
   rewrite E3. cbn [length Nat.ltb Nat.leb box_fill fill_for Nat.eqb andb].
   rewrite !map_dims.
